@@ -449,6 +449,6 @@ pub fn run(rep: &Report) -> Value {
         "operations_per_mode": n_ops,
         "concurrent": conc.iter().map(|(n, s)| json!({"scenario": n, "executions": s.executions, "deviation_bound_completed": s.bound_completed, "distinct_outcomes": s.distinct_outcomes, "unstable_failures_not_reported": s.unstable, "max_decision_points": s.max_points})).collect::<Vec<_>>(),
         "distinct_outcomes": conc.iter().map(|c| c.1.distinct_outcomes).sum::<usize>(),
-        "rule": "(inputs) the six send-side operations x argument values (plain and node-local pids/references, names of 0/255 bytes and UTF-8, payloads from the boundary alphabet, unlink ids across 64 bits) in pass-through and distribution-header mode on a real Connection against a scripted peer: the peer's byte log is cut by an independent deframer and each frame read by an independent reader; operations on never-connected, refused and closed connections; one Connection reused for a second session that negotiates the other framing mode (both directions); (concurrency) 2-3 tasks x 1-2 Node::send/link/monitor through one node with gates before the connection lock, between the partial writes of a frame and after a frame, per-operation cooperative-budget preemption (0..7 units left) and pairs of tasks made runnable in the same tick, all schedules within the deviation bound",
+        "rule": "(inputs) the six send-side operations x argument values (plain and node-local pids/references, names of 0/255 bytes and UTF-8, payloads from the boundary alphabet, unlink ids across 64 bits) in pass-through and distribution-header mode on a real Connection against a scripted peer: the peer's byte log is cut by an independent deframer and each frame read by an independent reader; operations on never-connected, refused, wrong-digest, peer-closed-before-acknowledging and caller-closed connections (no success, no byte written); a peer that stops reading while a 24 MiB message is being written, with a second sender queued, 120 s of virtual time, then reading again and a third message (the stream must parse into whole frames, one per successful send); one Connection reused for a second session that negotiates the other framing mode (both directions); (concurrency) 2-3 tasks x 1-2 Node::send/link/monitor through one node with gates before the connection lock, between the partial writes of a frame and after a frame, per-operation cooperative-budget preemption (0..7 units left) and pairs of tasks made runnable in the same tick, all schedules within the deviation bound",
     })
 }
